@@ -141,6 +141,12 @@ public:
 
     explicit FIRResampler(int out_fs, int in_fs, const arr_real& h);
 
+    //a copy owns its own filter state
+    FIRResampler(const FIRResampler& rhs);
+    FIRResampler& operator=(const FIRResampler& rhs);
+    FIRResampler(FIRResampler&&) noexcept = default;
+    FIRResampler& operator=(FIRResampler&&) noexcept = default;
+
     enum class Mode
     {
         Bypass,
